@@ -514,10 +514,10 @@ def run(ctx):
     res = ctx.map(check_texts, cases, chunksize=1)
     res2 = ctx.map(check_matching, [{'mode': 'matching'}], chunksize=1)
     return {
-        'evaluations': len(tx) + 19 * 3 + 1,
-        'distinct_nontrivial': len(tx) + 19,
+        'evaluations': len(tx) + 37 * 3 + 1,
+        'distinct_nontrivial': len(tx) + 37,
         'rule': 'every documentation text of length <= %d over %d escaping-class representatives (each the docstring of its own '
-                'method; literal decoded by an independent decoder and by g++); 19 member shapes (overloads by names / by order, '
+                'method; literal decoded by an independent decoder and by g++); 37 member shapes (a documented member template, alternating overload sets, members spread over two sections, Python names that differ from the C++ names, overloads by names / by order, '
                 'optional parameters with an overload of the arity in between, a struct compound with same-spelled overloads, brief only, undocumented, absent) x 3 XML trees (complete, no index, no folder) plus class '
                 'not indexed / class file missing / ill-formed; one wrapper used twice' % (3 if ctx.thorough else 2, len(CHARS)),
         'samples': [repr(t) for t in (tx[5], tx[100], tx[-1])],
